@@ -33,6 +33,7 @@ class NodeFx:
         self.memo_stores = set()  # cache keys stored ('*' unknown)
         self.memo_reads = set()  # cache keys read
         self.events = []  # ('clear', exclude_set|None|'?'), ('id_set',), ('verify',), ('update', keys), ('delete', k)
+        self.explicit = set()  # keys assigned by an explicit `owner._cache[...] = value` / `owner._cache.cache[...] = value`
         self.text = ""
 
 
@@ -177,6 +178,14 @@ class CacheSim:
                     fx.events.append(("delete", c.args[0] if c.args else None))
                 elif f.attr == "clear":
                     fx.events.append(("clear", None))
+        for c in nodes:
+            if isinstance(c, ast.Assign):
+                for t in c.targets:
+                    if isinstance(t, ast.Subscript) and (self._is_cache_expr(t.value) or self._is_cache_dict(t.value)):
+                        try:
+                            fx.explicit.add(str(const_eval(t.slice)))
+                        except (ValueError, TypeError):
+                            fx.explicit.add("*")
         # a bare protocol call (`owner._cache.clear(...)`, `.id_set()`, `.cache.update(...)`) is modelled by its event;
         # what the Cache method touches internally is not an access to memo entries
         if fx.events and isinstance(st, ast.Expr) and isinstance(st.value, ast.Call) and isinstance(st.value.func, ast.Attribute) \
@@ -288,7 +297,7 @@ class CacheSim:
         for p in paths:
             r = self._sim_path(p)
             sig = (frozenset(r["carried"]), r["alive_all"], frozenset(r["alive"]), frozenset(r["dropped"]),
-                   frozenset(r["stored"]), frozenset(r["preserved"]), frozenset(r["stale_reads"]), r["unknown_exclude"])
+                   frozenset(r["stored"]), frozenset(r["preserved"]), frozenset(r["stale_reads"]), r["unknown_exclude"], r["unverified"], frozenset(r["explicit"]))
             if sig in seen:
                 continue
             seen.add(sig)
@@ -300,6 +309,7 @@ class CacheSim:
         dropped = set()  # keys explicitly dropped while alive_all
         alive = set()  # explicit alive set when not alive_all
         stored = set()
+        explicit = set()  # keys the function itself assigns a computed value to (transport)
         preserved = set()  # keys explicitly carried over by the function (stash/restore or exclude)
         pending = []  # (label, kind, site)
         carried = []
@@ -308,6 +318,8 @@ class CacheSim:
         lock_depth_prev = False
         trace = []
         writes_in_lock = []
+        verified = False  # has the cache been verified on this path before the first write / lock entry?
+        unverified = None  # description of the first write or lock entry that happened on an unverified cache
         stale_restrict = None  # None: any key may predate the writes made under the lock; else only these
         stale_exempt = set()  # keys (re)stored after the last such write, or read (hence recomputed if absent)
 
@@ -334,8 +346,12 @@ class CacheSim:
             if lock_depth_prev and not inl:
                 rekey("lock exit")
                 writes_in_lock = []
+            if inl and not lock_depth_prev and not verified and unverified is None:
+                unverified = f"lock entered at `{self.fx[n].text}`"
             lock_depth_prev = inl
             fx = self.fx[n]
+            if not inl and not pending and (fx.memo_reads or any(e[0] == "verify" for e in fx.events)):
+                verified = True
             # reads of memo entries
             if fx.memo_reads:
                 if inl or not pending:
@@ -393,6 +409,8 @@ class CacheSim:
                     else:
                         for k, how in keys.items():
                             (preserved if how == "preserved" else stored).add(k)
+                            if how != "preserved":
+                                explicit.add(k)
                             if not alive_all:
                                 alive.add(k)
                 elif ev[0] == "delete":
@@ -404,6 +422,7 @@ class CacheSim:
                         stored.discard(k)
                     except (ValueError, TypeError):
                         pass
+            explicit |= fx.explicit
             for k in fx.memo_stores:
                 # a memo store outside a lock goes through Cache.__setitem__ -> verify first
                 if pending and not inl and not any(e[0] in ("dict_update",) for e in fx.events) and not self._direct_dict_store(st):
@@ -412,6 +431,8 @@ class CacheSim:
                 if not alive_all:
                     alive.add(k)
             stale_exempt |= set(fx.memo_stores) | set(fx.memo_reads)
+            if fx.data_writes and not verified and unverified is None and not inl:
+                unverified = f"write at `{fx.text}`"
             if fx.data_writes:
                 pending.extend(fx.data_writes)
                 if inl:
@@ -424,6 +445,7 @@ class CacheSim:
         return {
             "path": p, "carried": carried, "pending_at_exit": pending, "alive_all": alive_all, "alive": alive, "dropped": dropped,
             "stored": stored, "preserved": preserved, "stale_reads": stale_reads, "unknown_exclude": unknown_exclude, "trace": trace,
+            "unverified": unverified, "explicit": explicit,
         }
 
     def _direct_dict_store(self, st):
